@@ -199,6 +199,8 @@ def h_sample(ctx, name, variant, role):
     drop = (variant[8:],) if variant.startswith("without-") else ()
     sym = SC.symbolise(ctx, node, list_variant=lv, keep=SC.DISCRIMINATORS + tuple(keep), drop=drop)
     ent = C.fromProtocolTreeNode(sym)
+    if ent is None:
+        return [("the parser returns an entity for the documented stanza", False)]
     out = ent.toProtocolTreeNode()
     obs = []
     if role == "in":
